@@ -53,6 +53,9 @@ def _routes():
         'plus-empty-str': lambda A, CB: A + '',
         'empty-str-plus': lambda A, CB: '' + A,
         'mul-empty-plus': lambda A, CB: (CB('0b1') * 0) + A,
+        'empty-plus-literal': lambda A, CB: CB() + '0b0110',        # (cache conditions only: the literal is the cached string of source 'string')
+        'literal-plus-empty': lambda A, CB: '0b0110' + CB(),
+        'short-plus-literal': lambda A, CB: CB('0b1') + '0b0110',
         'radd-str': lambda A, CB: '0b1' + A,
         'mul1': lambda A, CB: A * 1,
         'rshift0': lambda A, CB: A >> 0,
@@ -372,6 +375,8 @@ def conditions(tier):
     muts_q = ['invert', 'append', 'clear']
     for ca in CLS:
         for route in routes:
+            if 'literal' in route:
+                continue
             for cb in (['BitArray'] if q else ['BitArray', 'BitStream', 'Bits']):
                 if not q and cb == 'Bits' and route not in ('auto', 'bits-kw', 'add-right', 'join'):
                     continue
@@ -383,13 +388,17 @@ def conditions(tier):
                             f'all {n}-bit contents, all stream positions; route {route}; mutation {mname}', route=route, mutation=mname, source='symbolic')
         for how in ('slice', 'stepslice', 'read', 'add', 'cut', 'unpack'):
             for route in (['auto', 'copy()', 'copy.copy', 'and-self', 'or-self', 'bits-kw', 'slice-all', 'add-empty'] if q else routes):
+                if 'literal' in route:
+                    continue
                 for cb in (['Bits', 'BitArray'] if q else ['Bits', 'BitArray', 'ConstBitStream', 'BitStream']):
                     if q and cb == 'BitArray' and route not in ('auto', 'bits-kw'):
                         continue
                     add(f'C04.pair[{ca}->{cb},{route},invert,n={N},source={how}]', h_pair(ca, cb, route, 'invert', N, 'derived:' + how),
                         f'all {N + 3}-bit contents; the source is itself a {how} result; route {route}; mutation invert', route=route, mutation='invert', source=how)
         for source in ('string', 'fromstring', 'cached-twice'):
-            for route in (['auto', 'bits-kw', 'copy()', 'slice-all', 'prop-assign-bits', 'tobitarray-back', 'add-empty', 'empty-plus', 'radd-empty'] if q else routes):
+            for route in (['auto', 'bits-kw', 'copy()', 'slice-all', 'prop-assign-bits', 'tobitarray-back', 'add-empty', 'empty-plus', 'radd-empty', 'empty-plus-literal', 'literal-plus-empty', 'short-plus-literal'] if q else routes):
+                if 'literal' in route and source != 'string':
+                    continue
                 for mname in (['invert', 'append'] if q else ['invert', 'append', 'clear', 'overwrite', 'setitem']):
                     add(f'C04.cache[{ca},{source},{route},{mname}]', h_pair(ca, 'BitArray', route, mname, 4, source),
                         f'object built from a concrete string through the live parse cache ({source}); route {route}; mutation {mname}', route=route, mutation=mname, source=source)
